@@ -31,13 +31,15 @@ file-length<filesize), `len<=2000` / `len>2000` / `mutable-class` for hash-relat
 `promotable:<str|bytes-like|file-like|iterable|bitarray>`, `non-promotable:<type category>`,
 `invalid-token-str`; operand cases prefix the shape with the operand order (obj-left / obj-right).
 
-Known genuine defect (mechanism of C08): a Bits / ConstBitStream created with filename=, offset 0 and a
-`length` shorter than the file keeps the whole mapped buffer; `BitStore.__eq__` compares the raw
-buffers, so the object is != to its own bits and == to the whole file.  Its mismatches carry the narrow
-input class `file-length<filesize`: `C13|eq|file-length<filesize|false-for-equal-bits` and
-`C13|eq|file-length<filesize|true-for-different-bits` (container checks are skipped for a pair whose
-== is already reported, so the defect produces no other key).  For BitArray / BitStream the same
-constructor yields the whole file's bits (C08's business); the observed-bits oracle follows that.
+Defect of the pinned snapshot (mechanism of C08), repaired in /repo by commit eb24d22: a Bits /
+ConstBitStream created with filename=, offset 0 and a `length` shorter than the file kept the whole
+mapped buffer; `BitStore.__eq__` compares the raw buffers, so the object was != to its own bits and ==
+to the whole file.  The route (`file_short`) and its directed reproducer stay in every run as a
+regression case; its mismatches carry the narrow input class `file-length<filesize`
+(`C13|eq|file-length<filesize|false-for-equal-bits`, `C13|eq|file-length<filesize|true-for-different-bits`;
+container checks are skipped for a pair whose == is already reported, so the defect produces no other
+key).  The oracle follows the bits the object itself reports, so it is independent of how C08's part
+of that defect (which bits such an object holds) is resolved.
 """
 from __future__ import annotations
 
@@ -81,8 +83,8 @@ ASSUMPTIONS = ['"the bits of an object" are what it reports publicly through len
                'object pairs are judged in both modes',
                'array.array operands denote their tobytes() data and open binary files their content (documented '
                'auto initialisers); memoryview / BytesIO are taken as listed in BitsType',
-               'route "file_short" (filename= with length < file size) is the C08 defect and keeps its own '
-               'mechanism keys']
+               'route "file_short" (filename= with length < file size; defective on the pinned snapshot, repaired by '
+               '/repo commit eb24d22) is kept as a regression case with its own mechanism keys']
 
 IMMUTABLE = ('Bits', 'ConstBitStream')
 SMALL = [0, 1, 2, 7, 8, 9, 15, 16, 17, 24, 63, 64, 65]
@@ -978,10 +980,10 @@ def O(cls, route, bits, arg=None, pos=None, pos2=None):
 
 
 def directed(ctx):
-    """Shapes every run must see, including the reproducer of the known file-length defect."""
+    """Shapes every run must see, including the reproducer of the (repaired) file-length defect."""
     rng = ctx.rng
     cases = []
-    # reproducer of the design-time defect: length-limited file store vs its own bits / the whole file
+    # regression reproducer of the design-time defect: length-limited file store vs its own bits / the whole file
     for L, tail in ((9, 7), (16, 8), (2001, 7), (320, 64)):
         bits = rb(rng, L)
         for cls in util.CLASS_NAMES:
